@@ -327,6 +327,85 @@ def fam_import_empty(tier, src=None):
         yield base + ["after=modification"], pre, build(q, src), [M("g.i", "7")]
 
 
+# ------------------------------------------------------------------------------------------------ placements
+def _ren_src(path, splace):
+    if not path.startswith("g."):
+        return path
+    return path[2:] if splace == "root" else "g.sub." + path[2:]
+
+
+def _ren_val(val, fn):
+    if isinstance(val, dict) and "ref" in val:
+        r = dict(val["ref"])
+        r["path"] = fn(r["path"])
+        return {"ref": r}
+    return val
+
+
+def reloc_src(prog, splace):
+    """move the source tree: 'g' (below group g), 'root' (no group), 'nested' (below g.sub)"""
+    if splace == "g":
+        return prog
+    out, body = [], False
+    for st in prog:
+        st = dict(st)
+        if st["k"] == "group" and st["name"] == "g" and st["ind"] == 0:
+            body = True
+            if splace == "nested":
+                out += [st, GRP("sub", 2)]
+            continue
+        if body and st.get("ind", 0) >= 2:
+            st["ind"] += 2 if splace == "nested" else -2
+        else:
+            body = False
+            if st["k"] in ("mod", "def"):
+                st["name"] = _ren_src(st["name"], splace)
+        if st["k"] in ("mod", "def"):
+            st["val"] = _ren_val(st["val"], lambda q: _ren_src(q, splace))
+        if st["k"] == "source":
+            st["prog"] = reloc_src(st["prog"], splace)
+        out.append(st)
+    return out
+
+
+def reloc_host(prog, hplace):
+    """move the host h: 'root', 'in-group' (indented below group box), 'dotted' (defined as box.h)"""
+    if hplace == "root":
+        return prog
+    out, first = [], True
+    ren = lambda q: "box.h" if q == "h" else q
+    for st in prog:
+        st = dict(st)
+        if st["k"] in ("mod", "def"):
+            st["val"] = _ren_val(st["val"], ren)
+            if st["name"] == "h":
+                if st["k"] == "def" and first and hplace == "in-group":
+                    out.append(GRP("box"))
+                    st["ind"] = 2
+                else:
+                    st["name"] = "box.h"
+                first = False
+        out.append(st)
+    return out
+
+
+PLACES = dict(quick=[("g", "root"), ("root", "in-group"), ("nested", "dotted")],
+              thorough=[(a, b) for a in ("g", "root", "nested") for b in ("root", "in-group", "dotted")])
+PLACED_FAMILIES = ("inject_def", "inject_mod")
+
+
+def _placed(fam, tier, tags, build):
+    """build(splace, hplace) -> program; yields (tags, program) for every placement of the tier"""
+    if fam not in PLACED_FAMILIES:
+        yield tags, build("g", "root")
+        return
+    for sp, hp in PLACES[tier]:
+        if (sp, hp) != ("g", "root") and tier != "thorough" and \
+                not any(t in ("after=nothing", "after=source-modified") for t in tags):
+            continue
+        yield tags + ["source-place=" + sp, "host-place=" + hp], build(sp, hp)
+
+
 LOCAL_FAMILIES = dict(inject_def=fam_inject_def, inject_mod=fam_inject_mod, inject_bad=fam_inject_bad,
                       imports=fam_import, import_empty=fam_import_empty)
 
@@ -350,13 +429,19 @@ def remote_cases(fam, tier, api):
             aft.append(st)
         if skip:
             continue
-        prog = [dict(k="source", name="s", prog=remote)] + local + stm + aft
-        yield tags + ["remote", "api=add_source" if api else "api=$source"], prog
+
+        def build(sp, hp, remote=remote, rest=local + stm + aft):
+            return [dict(k="source", name="s", prog=reloc_src(remote, sp))] + reloc_host(reloc_src(rest, sp), hp)
+        for t, prog in _placed(fam, tier, tags + ["remote", "api=add_source" if api else "api=$source"], build):
+            yield t, prog
 
 
 def local_cases(fam, tier):
     for tags, pre, stm, after in LOCAL_FAMILIES[fam](tier):
-        yield tags + ["local"], pre + stm + after
+        def build(sp, hp, prog=pre + stm + after):
+            return reloc_host(reloc_src(prog, sp), hp)
+        for t, prog in _placed(fam, tier, tags + ["local"], build):
+            yield t, prog
 
 
 def fam_remote_misc(tier):
